@@ -87,11 +87,14 @@ class C16Monitor(X.Monitor):
             if str(f.frame_name) != str(i):
                 ctx.violate("C16", "frames_in_order", "frame %d is named %r" % (i, f.frame_name), {})
             ego = tuple(s["ego"])
+            ego_q = rm.q_from_ypr(ego[3], *s.get("ego_rp", (0.0, 0.0)))
+            if "ego_rp" in s:
+                ctx.probe("c16_tilted_ego")
             # --- stored ego -> map transform ---------------------------------------------------------
             try:
                 m = f.transforms[(R["FrameID"].BASE_LINK, R["FrameID"].MAP)].matrix
-                c, sn = math.cos(ego[3]), math.sin(ego[3])
-                want = [[c, -sn, 0.0, ego[0]], [sn, c, 0.0, ego[1]], [0.0, 0.0, 1.0, ego[2]], [0.0, 0.0, 0.0, 1.0]]
+                rot = rm.q_matrix(ego_q)
+                want = [rot[0] + [ego[0]], rot[1] + [ego[1]], rot[2] + [ego[2]], [0.0, 0.0, 0.0, 1.0]]
                 if any(abs(float(m[r][cc]) - want[r][cc]) > 1e-6 * max(1.0, abs(want[r][cc])) for r in range(4) for cc in range(4)):
                     ctx.violate("C16", "ego2map_consistent", "stored ego->map transform differs from the sample's ego pose", {"frame": i})
             except KeyError:
@@ -138,7 +141,9 @@ class C16Monitor(X.Monitor):
                 if frame_name == "map":
                     want_p, want_q, clause = pose[:3], q_map, "pose_map"
                 else:
-                    want_p, want_q = rm.q_pose_map_to_ego(ego, pose[:3], q_map)
+                    d = (pose[0] - ego[0], pose[1] - ego[1], pose[2] - ego[2])
+                    want_p = rm.q_rotate(rm.q_conj(ego_q), d)
+                    want_q = rm.q_mul(rm.q_conj(ego_q), q_map)
                     clause = "pose_ego"
                 got_p, got_q = V.pos_of(o), V.quat_of(o)
                 if not _close(got_p, want_p) or rm.q_angle_between(got_q, want_q) > ANG_TOL:
